@@ -198,6 +198,61 @@ def case(cfg, trims):
     return out
 
 
+def reload_case(cfg):
+    """A sampler object that has finished a run (and answered posterior()) gets the final state of ANOTHER run loaded, one with the
+    same number of iterations and of stored samples; posterior() and evidence() must then describe the loaded history."""
+    import os, shutil
+    from tvf.checks.c08 import tmpdir
+    bad = []
+    out = dict(bad=bad, same_shape=0)
+    tmp = tmpdir()
+    try:
+        c = runs.full(cfg)
+        np.random.seed(c["seed"])
+        sA = runs.build(c)[0]
+        sA.run(n_total=c["n_total"], progress=False)
+        np.random.seed(c["seed"] + 1)
+        sB = runs.build(c)[0]
+        sB.run(n_total=c["n_total"], progress=False)
+        # equalise the number of iterations by letting the shorter run take further iterations at beta = 1
+        for _ in range(40):
+            la, lb = sA.state.get_history_length(), sB.state.get_history_length()
+            if la == lb:
+                break
+            (sA if la < lb else sB).sample()
+        HA, HB = runs.history(sA), runs.history(sB)
+        out["same_shape"] = int(len(HA["beta"]) == len(HB["beta"]) and sum(map(len, HA["logl"])) == sum(map(len, HB["logl"])))
+        pB = os.path.join(tmp, "b.state")
+        sB.save_state(pB)
+        sA.posterior()
+        sA.posterior(trim_importance_weights=False, return_logw=True)
+        sA.evidence()
+        sA.load_state(pB)
+        lwu, lwn, lz, ess = mis_ref(HB["logl"], HB["beta"], HB["logz"], 1.0)
+        wref = np.exp(np.asarray(lwn, dtype=np.longdouble)).astype(float)
+        wref /= wref.sum()
+        x, w, l, lw = sA.posterior(trim_importance_weights=False, return_logw=True)
+        if len(w) != len(wref) or not np.allclose(w, wref, rtol=1e-7, atol=1e-300) or x.tobytes() != np.concatenate(HB["x"]).tobytes():
+            bad.append(("posterior-weights-misaligned", f"after loading another run's final state (same shape: {bool(out['same_shape'])}) into a sampler that had finished its own run, "
+                        "posterior() does not return the loaded rows with their MIS weights"))
+        d = np.asarray(lw, float) - np.asarray(lwn, float) if len(lw) == len(lwn) else np.array([0.0, 1.0])
+        if np.max(d) - np.min(d) > 1e-8:
+            bad.append(("posterior-logw-misaligned", "after loading another run's final state: returned log-weights are not those of the loaded history"))
+        sA.run(n_total=c["n_total"], progress=False, resume_state_path=pB)
+        H2 = runs.history(sA)
+        _, _, lz2, ess2 = mis_ref(H2["logl"], H2["beta"], H2["logz"], 1.0)
+        ev = float(sA.evidence()[0])
+        if abs(ev - float(lz2)) > 1e-8 * (1 + abs(float(lz2))):
+            bad.append(("post-evidence", f"run(resume_state_path=<another run's final state>) on a used sampler: evidence()={ev!r}, MIS evidence of the stored history {float(lz2)!r}"))
+        if float(ess2) < c["n_total"] * (1 - 1e-9):
+            bad.append(("post-ess", f"run(resume_state_path=<another run's final state>) on a used sampler returned with reference ESS {float(ess2):.2f} < {c['n_total']}"))
+    except Exception as e:
+        bad.append(("run-raises", f"reload scenario raised {type(e).__name__}: {e}\n{fmt_exc()[-300:]}"))
+    finally:
+        shutil.rmtree(tmp, ignore_errors=True)
+    return out
+
+
 def big_history_case(seed, N, T, real):
     """posterior() / evidence() on a stored history of more than 2**17 rows (blockwise or chunked evaluation paths).
     real=False: the history is committed through the public StateManager API of a live sampler and only posterior() is judged
@@ -302,6 +357,19 @@ def run():
                 continue
             seen.add((key,))
             ck.violation(key, what, dict(cfg=cfg))
+    rl = [("tvf.checks.c12:reload_case", dict(cfg=dict(target=["gauss2", "bimodal", "expface"][j % 3], N=[32, 48][j % 2], n_total=[96, 144][j % 2], kernel=["tpcn", "rwm"][j % 2],
+                                                     resample=["mult", "syst"][j % 2], clustering=bool(j % 2), mode=["vec", "blobs", "scalar"][j % 3], seed=ck.subseed("reload", j) % 10 ** 6)), None)
+          for j in range(ck.pick(4, 24))]
+    for i, st, val in farm.run(rl, timeout=900, progress="C12-reload"):
+        kw = rl[i][1]
+        if st != "ok":
+            ck.inconc(f"reload case {kw}: {st} {str(val)[-300:]}")
+            continue
+        ck.case(dict(reload=kw), nontrivial=True)
+        ck.event("finished samplers that had another run's final state loaded (posterior / evidence judged)")
+        ck.event("... of which the loaded history had the same number of iterations and of stored samples", val["same_shape"])
+        for key, what in val["bad"]:
+            ck.violation(key, what, kw)
     bt = [("tvf.checks.c12:big_history_case", dict(seed=ck.subseed("big", 0), N=7000, T=20, real=False), None)]
     if not ck.quick:
         bt += [("tvf.checks.c12:big_history_case", dict(seed=ck.subseed("big", 1), N=2 ** 15 + 3, T=9, real=False), None),
